@@ -146,15 +146,30 @@ def check_case(ctx, case):
     if any(isinstance(e, dict) and "table_name" in e for e in base):
         ctx.nontrivial_case(digest(ddl + str(gbt) + str(ctor)))
     modes = case.get("modes") or [m for m in MODES if m != "sql"]
+    fresh = {}
     for mode in modes:
         ctx.evaluated()
         r = parse(ddl, ctor, output_mode=mode, **kw)
+        fresh[mode] = r
         ctx.obs["mode_runs"] += 1
         if r[0] == "exc":
             ctx.violation("mode_raises", dict(case, modes=[mode]), {"mode": mode, "exception": r[1], "message": r[2]})
             continue
         for kind, detail in compare_mode(base, flatten(r[1]), mode)[:3]:
             ctx.violation(kind, dict(case, modes=[mode]), detail)
+    # asking ONE parser object for several modes in a row must give what a fresh object gives for each mode
+    n = ctx.obs["cases_seen"] = ctx.obs["cases_seen"] + 1
+    if n % 3 == 0 and len(modes) > 2:
+        from vf.run import run_history
+        seq = ["sql"] + [modes[(n + q * 5) % len(modes)] for q in range(3)] + ["sql"]
+        h = run_history(ddl, ctor, [dict(output_mode=m, **kw) for m in seq])
+        ctx.evaluated(len(seq))
+        ctx.obs["same_object_mode_sequences"] += 1
+        for m, r in zip(seq, h):
+            want = b if m == "sql" else fresh[m]
+            if r[0] != want[0] or (r[0] == "ok" and r[1] != want[1]):
+                ctx.violation("mode_result_depends_on_modes_asked_before", dict(case, modes=seq), {"mode": m, "sequence": seq, "observed": short(r, 200), "fresh_object": short(want, 200)})
+                break
     # default mode itself must not show dialect fields at top level
     for kind, detail in compare_mode(base, base, "sql")[:2]:
         ctx.violation(kind, dict(case, modes=[]), detail)
